@@ -190,7 +190,7 @@ pub fn run(ctx: &Ctx) -> CheckResult {
     }
     // single-regime runs (drift that needs one regime to persist): periods 2 and 3, O(1)-per-step subjects
     for &n in &[2usize, 3] {
-        for &m in &[0.7, 1.1e6] {
+        for &m in &[1.0, 0.7, 1.1e6] {
             for r in set.iter() {
                 for cfg in subjects(n) {
                     if matches!(cfg.kind, Kind::Mad | Kind::Cci) {
